@@ -313,8 +313,15 @@ func c08ResultKinds(c *Ctx, rule string) {
 			fns = append(fns, f)
 		}
 	}
-	isResult := func(v ssa.Value) bool {
-		for _, d := range deepDefs(v, fns) {
+	// the script's result: what running the program gave (RunProgram), or the export of such a value — not the
+	// export of anything else (the arguments of the functions the environment offers are exported too).  Read
+	// through local variables, fields of local records, helper parameters and results.
+	var fromRun func(v ssa.Value, depth int) bool
+	fromRun = func(v ssa.Value, depth int) bool {
+		if depth > 4 {
+			return false
+		}
+		for _, d := range deepDefsCells(v, fns) {
 			var cl *ssa.Call
 			switch x := d.(type) {
 			case *ssa.Call:
@@ -326,12 +333,24 @@ func c08ResultKinds(c *Ctx, rule string) {
 				continue
 			}
 			name := ssau.CalleeName(cl)
-			if strings.Contains(name, "xport") || strings.Contains(name, "RunProgram") {
+			if strings.Contains(name, "RunProgram") {
 				return true
+			}
+			if strings.Contains(name, "xport") {
+				ops := append([]ssa.Value{}, cl.Common().Args...)
+				if cl.Common().IsInvoke() {
+					ops = append(ops, cl.Common().Value)
+				}
+				for _, a := range ops {
+					if fromRun(a, depth+1) {
+						return true
+					}
+				}
 			}
 		}
 		return false
 	}
+	isResult := func(v ssa.Value) bool { return fromRun(v, 0) }
 	n := 0
 	var bad []string
 	for _, f := range fns {
